@@ -352,7 +352,7 @@ func predicates(client *resolve.LocalClient, g *resolve.Graph, st *modelStats) (
 			if excluded(ex, g.Nodes[e.To].Version.Name) {
 				// A node shared between two artifact keys (same version reached with and
 				// without a classifier/type) may carry edges created on another path.
-				if len(in[n]) > 1 {
+				if len(nodeKeys[n]) > 1 {
 					continue
 				}
 				return fmt.Sprintf("node %s has an edge to %s, which is excluded along the node's creating path (%v)", g.Nodes[n].Version.Name, g.Nodes[e.To].Version.Name, ex), "an artifact excluded on a path is not reached through that path", nil
